@@ -312,6 +312,12 @@ add("C03", "fixed", "warning-for-clean-template:case",
     [{"source": "{% case a %}{% when 1, xs[\"b\"] c %}one{% when 2 %}two{% endcase %}", "data": V.enc({"a": 1, "xs": {"b": 1}}), "env": {"extra": True}},
      {"source": "{% case a %}{% when 1, xs[\"b\"] c %}one{% endcase %}", "data": V.enc({"a": 5, "xs": {"b": 5}}), "env": {}}], "779ff08")
 
+# ----------------------------------------------------------------------------- C04 fixed in round 4 (both first reported by an independent sub-agent)
+add("C04", "fixed", "reparse-error:float-exponent", "float literals were serialised with repr(): 100000000000000000000.0 became 1e+20 (syntax error) and 0.00001 became 1e-05 (parsed again as the path ['1e-05'])",
+    [c04("{{ 100000000000000000000.0 }}"), c04("{{ 0.00001 }}{% if a == 0.00001 %}y{% endif %}"), c04("{% render 'q', arg: 0.00001 %}")], "7bbed3c")
+add("C04", "fixed", "reparse-error:bracketed-identifier", "a name bound in bracket notation was serialised bare: {% assign ['a b'] = 1 %} became {% assign a b = 1 %}, {% render ['true'] %} became {% render true %}",
+    [c04("{% assign ['a b'] = 1 %}{{ ['a b'] }}"), c04("{% for ['a b'] in (1..2) %}{{ ['a b'] }}{% endfor %}"), c04("{% capture ['true'] %}x{% endcapture %}{{ ['true'] }}"), c04("{% increment ['v-1'] %}{% decrement ['if'] %}")], "c4d10da")
+
 if __name__ == "__main__":
     # further entries are appended by tools/mkfindings.py from triaged replay files and kept in findings_extra.json
     extra_path = os.path.join(VERIF, "tools", "findings_extra.json")
